@@ -56,7 +56,7 @@ TStep ==
 \* summary record of a streamed run (no per-event records: the input is tens of megabytes)
 TStream ==
   /\ IsEv("stream")
-  /\ StreamOk(R.res, R.expect_err, R.items, R.expected_items, R.chunk, R.max_item, R.peak, R.max_buf_len, R.max_buf_cap)
+  /\ StreamOk(R.res, R.expect_err, R.items, R.expected_items, R.chunk, R.max_item, R.peak, R.max_buf_len, R.max_buf_cap, R.max_reads_per_refill)
   /\ UNCHANGED <<cvars, corr, expect>>
 
 TInit == l = 1 /\ CInit /\ corr = <<FALSE, 0, 0, 0>> /\ expect = <<FALSE, <<>>>>
